@@ -65,6 +65,10 @@ Special == {
       F("a", 1, 13, T_Uint16, 0, 0, 0, 0, "u4"), F("a", 11, 5, T_Coil, 0, 0, 0, 0, "u5"), F("a1", 1, 6, T_Coil, 0, 0, 0, 0, "u6")>>,
     <<F("h:1_2", 3, 1, T_Uint16, 0, 0, 0, 0, "v1"), F("h:1", 23, 2, T_Uint16, 0, 0, 0, 0, "v2"), F("h:12", 3, 3, T_Uint16, 0, 0, 0, 0, "v3"),
       F("h:1", 2, 4, T_Uint16, 0, 0, 0, 0, "v4")>>,
+    \* server addresses that differ in the network prefix only: different targets (C06 speaks of the field's OWN server address)
+    <<F("udp://10.0.0.7:502", 1, 10, T_Uint16, 0, 0, 0, 0, "n1"), F("10.0.0.7:502", 1, 11, T_Uint16, 0, 0, 0, 0, "n2"),
+      F("tcp://10.0.0.7:502", 1, 12, T_Uint16, 0, 0, 0, 0, "n3"), F("10.0.0.7:502", 1, 5, T_Coil, 0, 0, 0, 0, "n4"),
+      F("tcp://10.0.0.7:502", 1, 6, T_Coil, 0, 0, 0, 0, "n5")>>,
     \* one group spread over more than half of the address space, a neighbour of the first field added last (an order of
     \* the slots that is computed from address DIFFERENCES goes round in a circle here)
     <<F("a:1", 1, 0, T_Uint16, 0, 0, 0, 0, "w1"), F("a:1", 1, 30000, T_Uint16, 0, 0, 0, 0, "w2"), F("a:1", 1, 60000, T_Uint16, 0, 0, 0, 0, "w3"),
